@@ -384,6 +384,201 @@ def hist_pn(cases, outs):
     return h
 
 
+# ---------------------------------------------------------------------------------------------
+# e2e_cid  (C13)
+# case: [seed, cid_lifetime_s (0 = none, else >= 60), limit_client, limit_server, rebinds,
+#        rebind_every_ms, drop_pm, delay_ms, pause_ms, bytes, n_bidi, jitter_ms, fault_until_ms]
+# ---------------------------------------------------------------------------------------------
+CID_LEN = 13
+
+
+def gen_cid(rng):
+    seed = rng.randrange(1, 1 << 48)
+    life = rng.choice([0, 60, 60, 61, 90, 120])
+    pause = rng.choice([0, 2000, 10000, 20000]) if life else rng.choice([0, 500])
+    lossy = rng.random() < 0.6
+    return [seed, life, rng.choice([2, 2, 3, 4, 8]), rng.choice([2, 3, 3, 5, 8]),
+            rng.choice([0, 0, 1, 2, 4]), rng.choice([300, 2000, 15000, 45000]),
+            rng.choice([20, 80, 200]) if lossy else 0, rng.choice([2, 20, 60]), pause,
+            rng.choice([1000, 50000, 150000]), rng.choice([1, 2]),
+            rng.choice([0, 20, 100]) if lossy else 0, rng.choice([2000, 60000, 400000])]
+
+
+def fixed_cid(tier):
+    return [
+        [1, 60, 3, 4, 2, 40000, 0, 20, 10000, 50000, 1, 0, 0],
+        [2, 0, 2, 2, 4, 500, 0, 10, 200, 50000, 1, 0, 0],
+        [3, 60, 8, 2, 1, 20000, 100, 20, 20000, 20000, 2, 50, 400000],
+        [4, 90, 2, 8, 3, 30000, 50, 50, 15000, 100000, 1, 20, 400000],
+    ]
+
+
+def valid_cid(c):
+    return (len(c) == CID_LEN and all(v >= 0 for v in c) and (c[1] == 0 or 60 <= c[1] <= 120) and 2 <= c[2] <= 8
+            and 2 <= c[3] <= 8 and c[4] <= 4 and c[6] <= 200 and c[8] <= 20000 and c[9] <= 150000 and 1 <= c[10] <= 2)
+
+
+def nontrivial_cid(case, out):
+    return len(out) > 7 and out[2] == 1 and out[6] >= 6
+
+
+def hist_cid(cases, outs):
+    h = {"new_cid_sent": 0, "retire_sent": 0, "drops_unknown_dcid": 0, "with_rebind": 0, "with_lifetime": 0}
+    for c, o in zip(cases, outs):
+        if o.startswith("!"):
+            continue
+        v = _parse(o)
+        ks = [v[7 + 8 * i] for i in range(v[6])]
+        h["new_cid_sent"] += ks.count(0)
+        h["retire_sent"] += ks.count(1)
+        h["drops_unknown_dcid"] += ks.count(4)
+        h["with_rebind"] += 1 if c[4] else 0
+        h["with_lifetime"] += 1 if c[1] else 0
+    return h
+
+
+def classify_cid(p):
+    """rpt_gt_seq_nonmonotone_lifetimes: a NEW_CONNECTION_ID with retire_prior_to > sequence number
+    (not expected with one constant lifetime)"""
+    try:
+        if p.get("component") != "e2e_cid" or p["impl"].startswith("!"):
+            return None
+        v = _parse(p["impl"])
+        rows = [v[7 + 8 * i:15 + 8 * i] for i in range(v[6])]
+        if any(r[0] == 0 and r[3] > r[2] for r in rows):
+            return "rpt_gt_seq_nonmonotone_lifetimes"
+        return None
+    except Exception:
+        return None
+
+
+# ---------------------------------------------------------------------------------------------
+# e2e_cc  (C09 / C10)
+# case: [seed, cc (0 cubic, 1 bbr), drop_pm, dup_pm, jitter_ms, delay_ms, n_bidi, bytes, fault_until_ms,
+#        n_uni, max_udp]
+# ---------------------------------------------------------------------------------------------
+CC_LEN = 11
+
+
+def gen_cc(rng):
+    lossy = rng.random() < 0.75
+    return [rng.randrange(1, 1 << 48), rng.choice([0, 1]),
+            rng.choice([10, 50, 100, 200]) if lossy else 0, rng.choice([0, 100, 300]) if lossy else 0,
+            rng.choice([0, 10, 100, 300]) if lossy else 0, rng.choice([1, 5, 20, 80, 200]),
+            rng.choice([1, 2, 4]), rng.choice([5000, 50000, 150000, 300000]), rng.choice([3000, 20000, 60000]),
+            rng.choice([0, 1]), rng.choice([1200, 1350, 1500, 9000])]
+
+
+def fixed_cc(tier):
+    return [
+        [1, 0, 0, 0, 0, 20, 1, 100000, 0, 0, 1500],
+        [2, 1, 0, 0, 0, 20, 1, 100000, 0, 0, 1500],
+        [3, 0, 50, 0, 10, 20, 2, 100000, 5000, 1, 1500],
+        [4, 1, 100, 100, 100, 50, 2, 300000, 20000, 1, 9000],
+    ]
+
+
+def valid_cc(c):
+    return len(c) == CC_LEN and all(v >= 0 for v in c) and c[1] <= 1 and c[2] <= 200 and 1 <= c[6] <= 4 and c[7] <= 300000 and c[10] >= 1200
+
+
+def nontrivial_cc(case, out):
+    return len(out) > 6 and out[2] == 1 and out[5] > 100
+
+
+def _cc_check(v, slack_us):
+    """python mirror of the e2e_cc monitor with a slack on the time threshold; True = accepted"""
+    cc = v[3]
+    rows = [v[6 + 8 * i:14 + 8 * i] for i in range(v[5])]
+    thr = lambda s, l: max(9 * max(s, l) // 8, 1000)
+    for ep in (0, 1):
+        unres, largest = {}, {}
+        cwnd, srtt, latest, mtu, bif, after_cong, disc_t, pending = 12000, 333000, 333000, 1200, 0, False, -1, []
+        for r in rows:
+            if r[1] != ep:
+                continue
+            k, t = r[0], r[7]
+            if k == 7:
+                break
+            if k == 0:
+                sp, pn, b, el, mode = r[2:7]
+                if (sp, pn) in unres:
+                    return False
+                if el == 1 and mode == 0:
+                    if not (bif < cwnd or after_cong):
+                        return False
+                    after_cong = False
+                unres[(sp, pn)] = (b, el, t)
+                if el == 1:
+                    bif += b
+            elif k == 1:
+                sp, lo, hi = r[2:5]
+                for key in [q for q in unres if q[0] == sp and lo <= q[1] <= hi]:
+                    if unres[key][1] == 1:
+                        bif -= unres[key][0]
+                    del unres[key]
+                largest[sp] = max(largest.get(sp, -1), hi)
+            elif k == 2:
+                sp, pn, probe = r[2], r[3], r[5]
+                if (sp, pn) not in unres:
+                    return False
+                b, el, t0 = unres.pop((sp, pn))
+                if el == 1:
+                    bif -= b
+                if not probe:
+                    lg = largest.get(sp, -1)
+                    if not pn < lg:
+                        return False
+                    if not (lg - pn >= 3 or t - t0 >= thr(srtt, latest) - slack_us):
+                        pending.append(t - t0)
+            elif k == 3:
+                if not ((t == disc_t or r[4] == bif) and r[4] >= 0 and (2 if cc == 0 else 4) * mtu <= r[3]):
+                    return False
+                if any(a < thr(r[5], r[6]) - slack_us for a in pending):
+                    return False
+                cwnd, srtt, latest, pending = r[3], r[5], r[6], []
+            elif k == 4:
+                for key in [q for q in unres if q[0] == r[2]]:
+                    if unres[key][1] == 1:
+                        bif -= unres[key][0]
+                    del unres[key]
+                disc_t = t
+            elif k == 5:
+                after_cong = True
+            elif k == 6:
+                mtu = r[3]
+    return True
+
+
+def classify_cc(p):
+    """loss_time_threshold_short_by_granularity (known, C09): the only thing wrong is a time-threshold
+    loss declared up to 1 ms (the timer granularity) early"""
+    try:
+        if p.get("component") != "e2e_cc" or p["impl"].startswith("!"):
+            return None
+        v = _parse(p["impl"])
+        if not _cc_check(v, 0) and _cc_check(v, 1000):
+            return "loss_time_threshold_short_by_granularity"
+        return None
+    except Exception:
+        return None
+
+
+def hist_cc(cases, outs):
+    h = {"bbr": 0, "rows": 0, "lost": 0, "congestion_events": 0, "capped": 0}
+    for c, o in zip(cases, outs):
+        if o.startswith("!"):
+            continue
+        v = _parse(o)
+        ks = [v[6 + 8 * i] for i in range(v[5])]
+        h["bbr"] += c[1]
+        h["rows"] += v[5]
+        h["lost"] += ks.count(2)
+        h["congestion_events"] += ks.count(5)
+        h["capped"] += v[4]
+    return h
+
+
 def _parse(o):
     return [(-int(t[1:], 16) if t.startswith("-") else int(t, 16)) for t in o.split()]
 
@@ -456,6 +651,20 @@ E2E_COMPONENTS = {
         "valid": valid_pn, "nontrivial": nontrivial_pn, "histogram": hist_pn,
         "classify": classify_pn,
     },
+    "e2e_cid": {
+        "name": "e2e_cid", "harness": ("h_e2e", "E2E"), "ocaml": "E2E", "model": False,
+        "gen": gen_cid, "fixed": fixed_cid, "quick": 50, "thorough": 800,
+        "shard_lines": 1, "line_timeout": 300,
+        "valid": valid_cid, "nontrivial": nontrivial_cid, "histogram": hist_cid,
+        "classify": classify_cid,
+    },
+    "e2e_cc": {
+        "name": "e2e_cc", "harness": ("h_e2e", "E2E"), "ocaml": "E2E", "model": False,
+        "gen": gen_cc, "fixed": fixed_cc, "quick": 40, "thorough": 600,
+        "shard_lines": 1, "line_timeout": 300,
+        "valid": valid_cc, "nontrivial": nontrivial_cc, "histogram": hist_cc,
+        "classify": classify_cc,
+    },
     "e2e_inject": {
         "name": "e2e_inject", "harness": ("h_e2e", "E2E"), "ocaml": "E2E", "model": False,
         "gen": gen_inject, "fixed": fixed_inject, "quick": 40, "thorough": 600,
@@ -515,13 +724,13 @@ registry.register("E2E", {
 import os as _os
 if _os.environ.get("VERIF_E2E_DEV"):
     def _classify_dev(p):
-        for f in (classify_pn, classify_e2e):
+        for f in (classify_pn, classify_cid, classify_cc, classify_e2e):
             r = f(p)
             if r:
                 return r
         return None
     registry.register("E2EX", {
-        "gen": ["E2E"], "props_file": "props/E2E.v", "extract_target": "extract/Ex_E2E.vo",
+        "gen": ["E2E"], "props_file": "props/E2E.v", "extract_target": None,
         "harness": "h_e2e", "harness_bin": "E2E", "axioms_allowed": [], "classify": _classify_dev,
         "components": [E2E_COMPONENTS[k] for k in _os.environ.get("VERIF_E2E_DEV_COMPS", "e2e_pn").split(",") if k in E2E_COMPONENTS],
         "rule": "developer run of the phase-2 end-to-end components", "assumptions": [], "trusted_base": [],
